@@ -408,7 +408,42 @@ func c15Expect(sc *c15Scenario, doc *jval) string {
 
 // ---------------------------------------------------------------- exploration
 
+// c15Deep is a chain of nested containers and lists deeper than any fixed
+// indentation table.
+func c15Deep(r *kit.Rng) *c15Scenario {
+	depth := r.Range(40, 70)
+	m := &schema.Node{Kind: schema.Module, Name: "m"}
+	t := model.New(m)
+	cur, curT := m, t
+	for i := 0; i < depth; i++ {
+		if i%7 == 3 {
+			l := &schema.Node{Kind: schema.List, Name: fmt.Sprintf("l%d", i), Keys: []string{fmt.Sprintf("k%d", i)}}
+			k := &schema.Node{Kind: schema.Leaf, Name: fmt.Sprintf("k%d", i), Type: "string"}
+			l.Children = append(l.Children, k)
+			cur.Children = append(cur.Children, l)
+			e := model.New(l)
+			e.Leaf[k.Name] = "k"
+			curT.List[l.Name] = &model.ListT{S: l, Entries: []*model.Tree{e}}
+			cur, curT = l, e
+		} else {
+			c := &schema.Node{Kind: schema.Container, Name: fmt.Sprintf("d%d", i)}
+			cur.Children = append(cur.Children, c)
+			ct := model.New(c)
+			curT.Cont[c.Name] = ct
+			cur, curT = c, ct
+		}
+	}
+	leaf := &schema.Node{Kind: schema.Leaf, Name: "x", Type: "string"}
+	cur.Children = append(cur.Children, leaf)
+	curT.Leaf["x"] = "deep"
+	m.Link()
+	return &c15Scenario{Schema: m, Tree: t, FailAt: -1, Pretty: r.Chance(3, 4), EnumIds: r.Chance(1, 2), Qualify: r.Chance(1, 2), Insert: r.Chance(1, 2)}
+}
+
 func c15Gen(r *kit.Rng) *c15Scenario {
+	if r.Chance(1, 25) {
+		return c15Deep(r)
+	}
 	size := r.Intn(3) // swarm knob: documents must straddle multiples of the writer's 4096-byte buffer
 	s := schema.GenerateRich(r, "m", []int{30, 60, 90}[size]+r.Intn(20), r.Range(2, 6))
 	o := model.GenOpts{Nasty: true, MaxEntries: []int{2, 6, 12}[size], Density: []int{45, 75, 95}[size], KeyPool: 40}
